@@ -16,7 +16,7 @@ LEVEL = "exploration"
 SHARDS = {"quick": 4, "thorough": 16}
 THOROUGH_DEPTH = 20      # thorough tier = this many times the base thorough budget (VERIF_DEPTH overrides)
 FORMS = ["fresh", "view", "aliased", "float32-free"]
-REGIONS = {"form:fresh": 300, "form:view": 300, "form:aliased": 300}
+REGIONS = {"form:fresh": 300, "form:view": 300, "form:aliased": 300, "form:objects": 300}
 THOROUGH_QUOTA_MULT = 4
 
 
@@ -344,7 +344,7 @@ def generate(rng, tier, shard, nshards):
     k = 0
     for rep in range(reps):
         for idx in range(nspec):
-            for form in ("fresh", "view", "aliased"):
+            for form in ("fresh", "view", "aliased", "objects"):
                 k += 1
                 if k % nshards != shard:
                     continue
@@ -374,7 +374,8 @@ def snapshot(args):
     for a in args:
         if isinstance(a, np.ndarray):
             base = a if a.base is None else a.base
-            out.append((a.tobytes(), np.asarray(base).tobytes()))
+            side = tuple(np.asarray(getattr(a, at)).tobytes() for at in ("A", "array") if type(a) is not np.ndarray and hasattr(a, at))
+            out.append((a.tobytes(), np.asarray(base).tobytes()) + side)
         else:
             out.append(None)
     return out
@@ -383,6 +384,25 @@ def snapshot(args):
 def make_forms(args, form, rng):
     if form == "fresh":
         return [a.copy() if isinstance(a, np.ndarray) else a for a in args]
+    if form == "objects":      # quaternion / rotation-matrix shaped arguments handed over as the library's own array objects (same values)
+        import ahrs
+        from ahrs.common.dcm import DCM
+        out, any_ = [], False
+        for a in args:
+            o_ = None
+            if isinstance(a, np.ndarray):
+                try:
+                    if a.shape == (4,) and np.any(a):
+                        o_ = ahrs.Quaternion(np.array(a, float), versor=False)
+                    elif a.ndim == 2 and a.shape[1] == 4 and a.shape[0] > 0 and np.all(np.isfinite(a)) and np.all(np.any(a != 0, axis=1)):
+                        o_ = ahrs.QuaternionArray(np.array(a, float), versors=False)
+                    elif a.shape == (3, 3) and np.all(np.isfinite(a)) and np.abs(a @ a.T - np.eye(3)).max() < 1e-9 and abs(np.linalg.det(a) - 1) < 1e-9:
+                        o_ = DCM(np.array(a, float))
+                except Exception:      # noqa: BLE001
+                    o_ = None
+            any_ = any_ or o_ is not None
+            out.append(o_ if o_ is not None else (a.copy() if isinstance(a, np.ndarray) else a))
+        return out if any_ else None
     if form == "view":
         out = []
         for a in args:
@@ -423,9 +443,12 @@ def check(case, ctx):
     base_args = fac(A(rng))
     args = make_forms(base_args, case.p["form"], rng)
     if args is None:
-        ctx.note("no two parameters of equal shape: aliased form not applicable")
+        ctx.note("no two parameters of equal shape: aliased form not applicable" if case.p["form"] == "aliased" else "no quaternion / rotation-matrix shaped argument: objects form not applicable")
         return
-    pristine = [a.copy() if isinstance(a, np.ndarray) else a for a in args]
+    if case.p["form"] == "objects":
+        pristine = [a.copy() if isinstance(a, np.ndarray) else a for a in base_args]
+    else:
+        pristine = [a.copy() if isinstance(a, np.ndarray) else a for a in args]
     before = snapshot(args)
 
     def run(a):
@@ -436,7 +459,7 @@ def check(case, ctx):
     changed = [i for i, (b, c) in enumerate(zip(before, after)) if b is not None and b != c]
     if changed:
         where = None
-        prot = [a.copy() if isinstance(a, np.ndarray) else a for a in pristine]
+        prot = make_forms(pristine, "objects", rng) if case.p["form"] == "objects" else [a.copy() if isinstance(a, np.ndarray) else a for a in pristine]
         for a in prot:
             if isinstance(a, np.ndarray):
                 a.flags.writeable = False
